@@ -393,14 +393,15 @@ Section Ideal.
 
   Lemma run12r_server a1 a2 a3 s :
     o_s (R12r a1 a2 a3) = Some s ->
-    exists v k, sel_version smin smax (e_ch s) = SelOk v /\ scsv_hit smax v (e_ch s) = false /\
-      s_resume v (e_ch s) = Some (e_sh s, k).
+    exists v sh0 k, sel_version smin smax (e_ch s) = SelOk v /\ scsv_hit smax v (e_ch s) = false /\
+      s_resume v (e_ch s) = Some (sh0, k) /\
+      e_sh s = set_tail sh0 (sentinel_for smax v (sh_tail sh0)).
   Proof.
     unfold run12r. cbv zeta. intros Hs.
     repeat brk Hs.
     all: injection Hs as <-; cbn [e_ch e_sh];
       match goal with X : server_front _ _ _ _ = SelOk ?v |- _ => apply server_front_ok in X; destruct X as [X1 X2] end;
-      do 2 eexists; repeat split; eassumption.
+      do 3 eexists; repeat split; eassumption.
   Qed.
 
   (* TLS 1.3: the SCSV / version decision is taken on the FIRST hello the server received *)
@@ -446,26 +447,34 @@ Section Ideal.
 
   Lemma run12r_no_downgrade a1 a2 a3 c s :
     o_c (R12r a1 a2 a3) = Some c -> o_s (R12r a1 a2 a3) = Some s -> UNF (R12r a1 a2 a3) ->
-    exists v k, sel_version smin smax c_hello = SelOk v /\ scsv_hit smax v c_hello = false /\
-      s_resume v c_hello = Some (e_sh c, k) /\ e_sh s = e_sh c /\ e_ch s = c_hello.
+    exists v sh0 k, sel_version smin smax c_hello = SelOk v /\ scsv_hit smax v c_hello = false /\
+      s_resume v c_hello = Some (sh0, k) /\
+      e_sh c = set_tail sh0 (sentinel_for smax v (sh_tail sh0)) /\ e_sh s = e_sh c /\ e_ch s = c_hello.
   Proof.
     intros Hc Hs Hu. pose proof (run12r_agree _ _ _ _ _ Hc Hs Hu) as E. subst s.
     destruct (run12r_client _ _ _ _ Hc) as [Hch _].
-    destruct (run12r_server _ _ _ _ Hs) as [v [k [A [B C]]]].
-    rewrite Hch in *. exists v, k. repeat split; assumption.
+    destruct (run12r_server _ _ _ _ Hs) as [v [sh0 [k [A [B [C D]]]]]].
+    rewrite Hch in *. exists v, sh0, k. repeat split; assumption.
   Qed.
 
-  Lemma run12_sentinel_written a1 a2 a3 a4 s :
-    o_s (R12 a1 a2 a3 a4) = Some s ->
-    exists v, sel_version smin smax (e_ch s) = SelOk v /\
-      (v < TLS12 -> smax >= TLS12 -> sh_tail (e_sh s) = 1) /\
-      (v = TLS12 -> smax > TLS12 -> sh_tail (e_sh s) = 2).
+  Lemma sentinel_written_all :
+    (forall a1 a2 a3 a4 s, o_s (R12 a1 a2 a3 a4) = Some s ->
+       exists v, sel_version smin smax (e_ch s) = SelOk v /\
+         (v < TLS12 -> smax >= TLS12 -> sh_tail (e_sh s) = 1) /\
+         (v = TLS12 -> smax > TLS12 -> sh_tail (e_sh s) = 2)) /\
+    (forall a1 a2 a3 s, o_s (R12r a1 a2 a3) = Some s ->
+       exists v, sel_version smin smax (e_ch s) = SelOk v /\
+         (v < TLS12 -> smax >= TLS12 -> sh_tail (e_sh s) = 1) /\
+         (v = TLS12 -> smax > TLS12 -> sh_tail (e_sh s) = 2)).
   Proof.
-    intros Hs. destruct (run12_server _ _ _ _ _ Hs) as [v [sh0 [rest [A [B [C D]]]]]].
-    exists v. split; [exact A|]. rewrite D. cbn [sh_tail set_tail].
-    destruct (sentinel_for_spec v (sh_tail sh0)) as [P [Q _]]. split; assumption.
+    split; intros.
+    - destruct (run12_server _ _ _ _ _ H) as [v [sh0 [rest [A [B [C D]]]]]].
+      exists v. split; [exact A|]. rewrite D. cbn [sh_tail set_tail].
+      destruct (sentinel_for_spec v (sh_tail sh0)) as [P [Q _]]. split; assumption.
+    - destruct (run12r_server _ _ _ _ H) as [v [sh0 [k [A [B [C D]]]]]].
+      exists v. split; [exact A|]. rewrite D. cbn [sh_tail set_tail].
+      destruct (sentinel_for_spec v (sh_tail sh0)) as [P [Q _]]. split; assumption.
   Qed.
-
 
   Notation CH1 := (set_binders c_hello (binders_for hash fin c_psk_keys psk_alg [] c_hello)).
 
@@ -549,7 +558,7 @@ Section Ideal.
   Proof.
     repeat split; intros.
     - destruct (run12_server _ _ _ _ _ H) as [v [sh0 [rest [A [B _]]]]]. exists v. split; assumption.
-    - destruct (run12r_server _ _ _ _ H) as [v [k [A [B _]]]]. exists v. split; assumption.
+    - destruct (run12r_server _ _ _ _ H) as [v [sh0 [k [A [B _]]]]]. exists v. split; assumption.
     - destruct (run13_server _ _ _ _ _ _ H) as [ch1' [_ [_ [B [E|[ck [g E]]]]]]].
       + rewrite E. exact B.
       + apply hrr_second_ok_basic in E. destruct E as [_ [_ [_ [Hs _]]]].
